@@ -239,7 +239,7 @@ class Machine:
 
     def _push(self, o, model):
         if self.frozen:
-            o.data.setflags(write=False)
+            seams.set_writeable([o.data], False)
         self.pool.append([o, list(model), None])
         if len(self.pool) > self.pool_max:
             self.pool.pop(0)
@@ -521,8 +521,7 @@ class Machine:
 
     def op_freeze(self, op):
         self.frozen = bool(op["on"])
-        for o, m, _ in self.pool:
-            o.data.setflags(write=not self.frozen)
+        seams.set_writeable([o.data for o, m, _ in self.pool], not self.frozen)
         if self.frozen and self.pool:
             self.rec.fault("freeze")
         return str(self.frozen)
@@ -536,20 +535,7 @@ class Machine:
 
 def _run_ops(spec, rec, known):
     m = Machine(spec.get("cfg", {}), rec, known)
-    for step, op in enumerate(spec["ops"]):
-        try:
-            m.apply(op, step)
-        except Violation as v:
-            v.step = step
-            raise
-        except ValueError as e:
-            # a write to a write-protected operand surfaces as numpy's read-only error
-            if "read-only" in str(e):
-                v = Violation("C15/operand-mutated", f"library attempted to write a protected operand in "
-                                                     f"op {op}: {e}", f"write/{op['op']}")
-                v.step = step
-                raise v
-            raise
+    core.run_ops(m, spec["ops"], rec, "C15/reject", "C15/operand-mutated")
     rec.sim_s = m.clock.covered
 
 
